@@ -104,6 +104,7 @@ struct SimConfig {
   double   place_unaligned_p = 0.0; // with policy 1: probability per un-hinted/hint-ignored map
   int      madv_free_mode = 0;   // 0 keep, 1 discard, 2 random per call, 3 EINVAL (unsupported)
   int      thp_einval = 0;
+  uint64_t hold_steps = 0;       // ST_TARGETED: a thread preempted at a hot site stays descheduled for this many scheduling points (a stalled thread)
   int      stable_sched = 0;     // 1: scheduling decisions are keyed by (logical thread, operation, n-th decision in it) instead of one stream
   int      hugetlb = 0;          // explicit huge pages (mmap MAP_HUGETLB): 0 none configured (ENOMEM), 1: 2 MiB pages, 2: 2 MiB and 1 GiB pages
   int      entropy_fail = 0;     // 1: getrandom ENOSYS and /dev/urandom unavailable
